@@ -99,6 +99,15 @@ StepSame == /\ last = None /\ cell.op \in DifferenceOps
                IN last' = [op |-> cell.op, mode |-> Absent, res |-> r, out |-> IF r.kind = "ok" THEN Ok(ZeroDur) ELSE r,
                            operands |-> IF "b" \in DOMAIN o THEN [a |-> o.a, b |-> o.a] ELSE o, same |-> TRUE]
             /\ UNCHANGED cell
+\* PlainDateTime.until / since between two times of the SAME calendar date: the options are those of a date-time difference all the same
+\* (date units are valid largest and smallest units; the default largest unit is day)
+DASame == DT(Date(2020, 1, 15), Time(3, 36, 36, 600, 600, 600))
+StepSameDate == /\ last = None /\ cell.op \in {"PlainDateTime.until", "PlainDateTime.since"}
+                /\ LET r == ResolveCell(cell, Absent)
+                   IN last' = [op |-> cell.op, mode |-> Absent, res |-> r,
+                               out |-> IF r.kind # "ok" THEN r ELSE IF r.smallest \in DateUnits /\ r.inc >= 1000 THEN [kind |-> "any"] ELSE OkAny,
+                               operands |-> [a |-> DTJ(DA), b |-> DTJ(DASame)], same |-> FALSE]
+                /\ UNCHANGED cell
 \* the public helper tables of the option enums (Unit::as_nanoseconds / to_maximum_rounding_increment / is_*_unit,
 \* RoundingMode::negate / get_unsigned_round_mode): one step per unit (incl. auto) and per mode, independent of the cell
 AnchorCell == CHOOSE c \in [op : Ops, lg : UnitOpts, sm : UnitOpts, inc : Incs] : TRUE
@@ -118,7 +127,7 @@ UnitPlus(u, n) == IF n = -1 \/ UnitIndex(u) + n > Len(Units) \/ UnitIndex(u) + n
 TableUnitAdd(u, n) == /\ last = None /\ cell = AnchorCell
                       /\ last' = [op |-> "table.unitAdd", mode |-> Absent, res |-> [kind |-> "ok"], out |-> Ok(UnitPlus(u, n)), operands |-> [unit |-> u, n |-> n], same |-> FALSE]
                       /\ UNCHANGED cell
-Next == (\E mode \in ModeOpts : Step(mode)) \/ StepSame \/ (\E u \in UnitSet \cup {"auto"}, n \in {0, 1, 3, 10, 11, -1} : TableUnitAdd(u, n)) \/ (\E u \in UnitSet \cup {"auto"} : TableUnit(u)) \/ (\E m \in Modes : TableMode(m))
+Next == (\E mode \in ModeOpts : Step(mode)) \/ StepSame \/ StepSameDate \/ (\E u \in UnitSet \cup {"auto"}, n \in {0, 1, 3, 10, 11, -1} : TableUnitAdd(u, n)) \/ (\E u \in UnitSet \cup {"auto"} : TableUnit(u)) \/ (\E m \in Modes : TableMode(m))
 \* laws on the tables: negation is an involution that swaps the two signs' unsigned modes; the three unit classes partition as Temporal says
 TableLaws == /\ (last.op = "table.mode" => LET m == last.operands.mode IN
                     /\ NegateMode(NegateMode(m)) = m
